@@ -17,11 +17,12 @@ import (
 	"github.com/gotd/td/internal/verif/shim/vsched"
 	"github.com/gotd/td/mt"
 	"github.com/gotd/td/mtproto"
+	"github.com/gotd/td/transport"
 )
 
 type params struct {
-	Mode string   `json:"mode"` // "ping" | "loop"
-	Env  []string `json:"env"`  // ping: "pong:own" "pong:other" "cancel"; loop: one of "always" "never" "first-only" "late"
+	Mode string   `json:"mode"` // "ping" | "loop" | "run" (the loop inside the real Conn.Run)
+	Env  []string `json:"env"`  // ping: "pong:own" "pong:other" "cancel"; loop: one of "always" "never" "first-only" "late" "late-by-1ms" "wrong-id" "stalled-write"; run: "never"
 }
 
 const (
@@ -49,15 +50,21 @@ func newWorld(o *sx.Obs) *world {
 	copy(k[:], kit.Pattern("stream:c43key", 256))
 	w.key = k.WithID()
 	w.cli, w.srv = sx.NewPipe(o, "c", "s")
-	c, err := mtproto.VerifC43NewConn(mtproto.Options{
-		DC: 2, Key: w.key, Salt: 1, Clock: sx.Clock{}, Random: kit.NewStream(3), Cipher: crypto.NewClientCipher(kit.NewStream(4)),
-		Handler: nopHandler{}, PingInterval: interval, PingTimeout: timeout,
-	}, w.cli)
+	c, err := mtproto.VerifC43NewConn(w.options(), w.cli)
 	if err != nil {
 		panic(err)
 	}
 	w.conn = c
 	return w
+}
+
+func (w *world) options() mtproto.Options {
+	return mtproto.Options{
+		DC: 2, Key: w.key, Salt: 1, Clock: sx.Clock{}, Random: kit.NewStream(3), Cipher: crypto.NewClientCipher(kit.NewStream(4)),
+		Handler: nopHandler{}, PingInterval: interval, PingTimeout: timeout,
+		// (only Conn.Run starts the loops these belong to: keep their timers out of the horizon)
+		AckInterval: time.Hour, SaltFetchInterval: 100 * time.Hour, RetryInterval: time.Hour, DialTimeout: 10 * time.Hour,
+	}
 }
 
 // nextPing blocks until the n-th (0-based) ping frame was written and returns its ping id; ok=false when stop() holds first.
@@ -102,7 +109,7 @@ func (w *world) nextPing(n int, stop func() bool) (int64, bool) {
 func (w *world) pong(n int, pingID int64, tag string) {
 	var b bin.Buffer
 	_ = (&mt.Pong{MsgID: 1, PingID: pingID}).Encode(&b)
-	w.o.Log("pong-begin #%d %s step=%d", n, tag, vsched.Step())
+	w.o.Log("pong-begin #%d %s step=%d t=%d", n, tag, vsched.Step(), vsched.Elapsed()/time.Millisecond)
 	if err := w.conn.VerifC43HandleMessage(0x5000000000000001+int64(4*n), b.Buf); err != nil {
 		w.o.Log("pong-error %v", err)
 	}
@@ -181,12 +188,51 @@ func body(p params, o *sx.Obs) {
 					if n == 0 {
 						w.pong(n, id, "own")
 					}
-				case "late":
-					vsched.Sleep(6 * time.Second)
+				case "late", "late-by-1ms":
+					// the pong arrives after the ping timeout: 1 s late, or by the smallest step of the fake clock used here
+					late := time.Second
+					if p.Env[0] == "late-by-1ms" {
+						late = time.Millisecond
+					}
+					vsched.Sleep(timeout + late)
 					if done {
 						return
 					}
 					w.pong(n, id, "own")
+				case "wrong-id":
+					w.pong(n, id+1, "other") // the peer answers every keep-alive ping at once, but never with its id
+				}
+			}
+		})
+	case "run":
+		// the keep-alive loop where it really runs: inside Conn.Run, next to the read, ack and salt loops; the peer
+		// never answers a ping; the harness stops the connection only if it is still up at t=35s when nothing else can run
+		conn := mtproto.New(func(context.Context) (transport.Conn, error) { return w.cli, nil }, w.options())
+		ctx, cancel := vctx.WithCancel(vctx.Background())
+		done := false
+		g.Go("stopper", func() {
+			vsched.Sleep(35 * time.Second)
+			vsched.Quiesce() // every thread that could still react to what happened before t=35s has done so
+			if !done {
+				o.Log("stop-needed t=%d step=%d", vsched.Elapsed()/time.Millisecond, vsched.Step())
+			}
+			cancel()
+		})
+		g.Go("run", func() {
+			err := conn.Run(ctx, func(ctx context.Context) error {
+				vsched.Recv(ctx.Done()) // the application callback lives as long as the connection
+				return ctx.Err()
+			})
+			o.Log("run-ret err=%v t=%d step=%d", err != nil, vsched.Elapsed()/time.Millisecond, vsched.Step())
+			if err != nil {
+				o.Log("run-error %v", err)
+			}
+			done = true
+		})
+		g.Go("server", func() {
+			for n := 0; ; n++ {
+				if _, ok := w.nextPing(n, func() bool { return done }); !ok {
+					return
 				}
 			}
 		})
@@ -251,7 +297,7 @@ func check(p params, o *sx.Obs, x *vsched.Sched) kit.Result {
 		}
 		return kit.OKo("ping " + ret)
 	case "loop":
-		type ping struct{ t, step, pongBegin int }
+		type ping struct{ t, step, pongBegin, pongT int }
 		var pings []ping
 		ret, retT, retStep, stopStep := "", 0, 0, 1<<30
 		for _, e := range o.Events {
@@ -259,10 +305,10 @@ func check(p params, o *sx.Obs, x *vsched.Sched) kit.Result {
 			var k string
 			switch {
 			case scan(e, "wire c#%d len=%d t=%d step=%d", &n, &l, &t, &st):
-				pings = append(pings, ping{t, st, -1}) // the loop only ever writes ping_delay_disconnect
-			case scan(e, "pong-begin #%d own step=%d", &n, &st):
+				pings = append(pings, ping{t, st, -1, -1}) // the loop only ever writes ping_delay_disconnect
+			case scan(e, "pong-begin #%d own step=%d t=%d", &n, &st, &t):
 				if n < len(pings) {
-					pings[n].pongBegin = st
+					pings[n].pongBegin, pings[n].pongT = st, t
 				}
 			case scan(e, "loop-ret %s t=%d step=%d", &k, &retT, &retStep):
 				ret = k
@@ -302,6 +348,16 @@ func check(p params, o *sx.Obs, x *vsched.Sched) kit.Result {
 				return kit.Bad("loop-continued-without-pong", "ping #%d had not been answered when the loop sent ping #%d (step %d)", i, i+1, pings[i+1].step)
 			}
 		}
+		// a pong that arrives later than the ping timeout after its ping was written, while the loop is still waiting
+		// for it (the deadline of that attempt has not fired), did "not arrive within the ping timeout": the loop must
+		// not go on to the next ping as if it had
+		for i := 0; i+1 < len(pings) && i < len(deadlines); i++ {
+			pg, d := pings[i], deadlines[i]
+			if pg.pongBegin >= 0 && time.Duration(pg.pongT-pg.t)*time.Millisecond > timeout && (d.FiredStep < 0 || d.FiredStep > pg.pongBegin) {
+				return kit.Bad("loop-accepted-late-pong", "ping #%d was written at t=%dms and its pong arrived at t=%dms, later than the ping timeout %v, but the loop was still waiting for it (deadline of the attempt: t=%dms) and went on to ping #%d",
+					i, pg.t, pg.pongT, timeout, d.Deadline/time.Millisecond, i+1)
+			}
+		}
 		// a ping that is never answered and whose timeout fired before the loop was stopped must end the loop with an error
 		for i, d := range deadlines {
 			unanswered := i >= len(pings) || pings[i].pongBegin < 0
@@ -310,6 +366,34 @@ func check(p params, o *sx.Obs, x *vsched.Sched) kit.Result {
 			}
 		}
 		return kit.OKo(fmt.Sprintf("loop %s pings=%d deadlines-fired=%d", ret, len(pings), fired(deadlines)))
+	case "run":
+		// ping deadlines: context deadlines shorter than an hour (the connect phase's DialTimeout deadline is 10 h)
+		var deadlines []*vsched.TimerInfo
+		for _, ti := range x.TimerLog {
+			if ti.Inline && ti.Deadline-ti.CreatedAt < time.Hour {
+				deadlines = append(deadlines, ti)
+			}
+		}
+		var bad bool
+		var t, st int
+		ret := false
+		for _, e := range o.Events {
+			if scan(e, "run-ret err=%t t=%d step=%d", &bad, &t, &st) {
+				ret = true
+			}
+		}
+		switch {
+		case !ret:
+			return kit.Bad("run-stuck", "Conn.Run never returned: blocked %v; %s", x.Blocked, o.String())
+		case o.Has("stop-needed") && fired(deadlines) > 0:
+			return kit.Bad("run-survived-missed-pong", "no ping was ever answered and a ping timeout fired, but the connection was still up at t=35s with nothing left to run (Conn.Run ended only when the harness stopped it): %s", o.String())
+		case o.Has("stop-needed"):
+			// deviations let the horizon pass before the loop had armed a ping timeout: nothing to judge
+			return kit.Result{Outcome: "run stopped before any ping timeout fired", Trivial: true}
+		case !bad:
+			return kit.Bad("run-ended-without-error", "no ping was ever answered, yet Conn.Run returned nil: %s", o.String())
+		}
+		return kit.OKo(fmt.Sprintf("run ended with an error, pings=%d deadlines-fired=%d", o.Count("ping-sent"), fired(deadlines)))
 	}
 	return kit.Bad("bad-mode", "")
 }
@@ -338,13 +422,20 @@ func main() {
 			{"loop", []string{"first-only"}},
 			{"loop", []string{"late"}},
 			{"loop", []string{"stalled-write"}},
+			{"loop", []string{"late-by-1ms"}},
+			{"loop", []string{"wrong-id"}},
+			{"run", []string{"never"}},
 		}
 		bound := 2
 		if c.Thorough() {
 			bound = 3
 		}
 		mk := func(p params) sx.Scenario[params] {
-			return sx.Scenario[params]{Name: "ping", Params: p, MaxSteps: 6000, FreeBound: 6, Body: body, Check: check}
+			fb := 6
+			if p.Mode == "run" {
+				fb = 1 // nine threads: the quantifier of this scenario is the entry point, not the schedule
+			}
+			return sx.Scenario[params]{Name: "ping", Params: p, MaxSteps: 6000, FreeBound: fb, Body: body, Check: check}
 		}
 		if c.Replaying() {
 			sx.Explore(c, mk(scs[0]), 0, 0, 1)
@@ -353,13 +444,20 @@ func main() {
 		c.Rule("real mtproto.Conn ping paths (instrumented mtproto, in-package construction over an in-memory wire, frames opened with a reference MTProto 2.0 "+
 			"decryptor to learn the ping id): Ping x environment {own pong, pong for another id, duplicate own pong, cancel}; pingLoop on the virtual clock "+
 			"(interval 10s, timeout 5s, 35s horizon) x server {always answers, never, first only, answers 6s late, ping write stalls}; every schedule with <= %d "+
-			"preemptions/early timers and <= 6 non-default free choices. Oracle: Ping returns nil only after an own-id pong delivery began, a cancellation "+
-			"error only after the cancel; the loop sends the next ping only after the previous pong was delivered, ends with an error when a ping is never answered and its timeout fired before the stop, and never hangs (a pong that arrives after the deadline fired but before the loop noticed is a race the statement leaves open).", bound)
+			"preemptions/early timers and <= 6 non-default free choices; added by the audit: server {answers 1 ms after the timeout, answers every ping at once with a foreign id} for pingLoop, and the loop inside the real Conn.Run (dialer -> wire, read/ack/salt loops and an application callback alongside, peer never answers, the harness stops the connection only if it is still up at t=35s with nothing left to run; <= %d deviation and <= 1 free choice). Oracle: Ping returns nil only after an own-id pong delivery began, a cancellation "+
+			"error only after the cancel; the loop sends the next ping only after the previous pong was delivered, ends with an error when a ping is never answered and its timeout fired before the stop, and never hangs (a pong that arrives after the deadline fired but before the loop noticed is a race the statement leaves open); a pong that arrives later than the ping timeout after its ping was written while that attempt's deadline has not fired must not let the loop go on to the next ping; under Conn.Run a fired ping timeout must have ended Run with an error before the horizon.", bound, bound-1)
 		type unit struct{ sc, shard, shards int }
 		var units []unit
 		for i := range scs {
-			n := 2
-			if scs[i].Mode == "loop" {
+			// shards in proportion to the size of the schedule tree (quick: 75..72k executions per scenario)
+			n := 1
+			switch {
+			case scs[i].Mode == "ping" && len(scs[i].Env) == 3, scs[i].Mode == "loop" && scs[i].Env[0] == "first-only":
+				n = 2
+			case scs[i].Mode == "loop" && scs[i].Env[0] == "always":
+				n = 4
+			}
+			if c.Thorough() && n < 4 {
 				n = 4
 			}
 			for k := 0; k < n; k++ {
@@ -370,6 +468,9 @@ func main() {
 			return
 		}
 		u := units[c.Shard]
+		if scs[u.sc].Mode == "run" {
+			bound--
+		}
 		sx.Explore(c, mk(scs[u.sc]), bound, u.shard, u.shards)
 	})
 }
